@@ -7,10 +7,65 @@ from typing import Any, Callable, Dict, Iterable, Iterator, List, Optional, Sequ
 from .loader import AnalysisError, ClassInfo, FuncInfo, Module, Program, walk_shallow
 
 
+PROGRAM: Optional[Program] = None  # registered by check.py; lets construct() name a private helper after its sole caller
+_CALLERS: Dict[int, Dict[str, Set[str]]] = {}
+
+
+def owner_of(p: Program, fn: FuncInfo) -> FuncInfo:
+    """A private helper (function or method `_name`, or a method of a private class) with exactly one calling function is
+    part of that caller: constructs inside it are named after the caller, so that extracting statements into a helper -
+    or inlining one back - does not turn a known construct into a new one."""
+    from .collect import default_inline
+    cal = _CALLERS.get(id(p))
+    if cal is None:
+        cal = {}
+        for f in p.all_functions():
+            for n in ast.walk(f.node):
+                r = None
+                if isinstance(n, ast.Call):
+                    try:
+                        r = p.resolve_call(f, n)
+                    except Exception:
+                        r = None
+                    if isinstance(r, ClassInfo):
+                        # creating a private holder object: its methods are used by the creator
+                        if r.name.startswith("_") and not r.name.startswith("__"):
+                            for m in r.methods.values():
+                                cal.setdefault(m.fq, set()).add(f.fq)
+                        r = None
+                if isinstance(r, FuncInfo) and r is not f:
+                    cal.setdefault(r.fq, set()).add(f.fq)
+        _CALLERS.clear()
+        _CALLERS[id(p)] = cal
+    cur = fn
+    for _ in range(4):
+        top = cur
+        while top.parent is not None:
+            top = top.parent
+        if top is not cur:
+            cur = top
+            continue
+        if not default_inline(cur):
+            break
+        cs = {c for c in cal.get(cur.fq, set()) if c != cur.fq}
+        if len(cs) != 1:
+            break
+        try:
+            cur = p.func(next(iter(cs)))
+        except Exception:
+            break
+    return cur
+
+
 def construct(fn_or_cls, node: Optional[ast.AST] = None, text: Optional[str] = None) -> str:
     """Position-independent key of a construct: module:qualname :: normalised text."""
     if isinstance(fn_or_cls, FuncInfo):
         head = fn_or_cls.fq
+        if PROGRAM is not None and fn_or_cls.parent is None:
+            try:
+                head = owner_of(PROGRAM, fn_or_cls).fq
+            except Exception:
+                head = fn_or_cls.fq
     elif isinstance(fn_or_cls, ClassInfo):
         head = fn_or_cls.fq
     else:
